@@ -11,20 +11,32 @@ RULE = ('seeded charts on a queued host (HsmWithQueues, capacity 500, no overflo
         'points (each bounded by a fire count); oracle: a double-ended-queue model driven by the same operations '
         '(handler posts predicted by the reference state machine) predicts exactly which event every step dispatches, '
         'next_rtc returns False and dispatches nothing on an empty queue, no event is dispatched twice, the queue '
-        'contents match after every op and complete_circuit returns with an empty queue. Non-trivial = a step taken '
+        'contents match after every op and complete_circuit returns with an empty queue (a long-circuit stratum runs circuits of 120-1100 steps fed by a handler that keeps re-posting). Non-trivial = a step taken '
         'with >= 2 events queued or a handler-made post; distinct = distinct (op kind, queue length before, number of '
         'handler posts in the step, lifo/fifo mix) tuples.')
 ASSUMPTIONS = ['no schedule dimension (posts from handlers are re-entrancy, not concurrency)']
 PROBES = []
 PLAN = {
-  'quick': {'strata': {'deque-order': 5000}, 'wall_s': 90, 'chunk': 100, 'min_conclusive': 1000},
-  'thorough': {'strata': {'deque-order': 120000}, 'wall_s': 900, 'chunk': 250, 'min_conclusive': 10000},
+  'quick': {'strata': {'deque-order': 5000, 'long-circuit': 48}, 'wall_s': 90, 'chunk': 100, 'min_conclusive': 1000},
+  'thorough': {'strata': {'deque-order': 120000, 'long-circuit': 1500}, 'wall_s': 900, 'chunk': 250, 'min_conclusive': 10000},
 }
 ORACLES = [lambda run, res: co.check_queue_order(run, res, want=('C14',))]
 
 
 def generate(seed, stratum, tier):
   rng = random.Random(seed)
+  if stratum == 'long-circuit':
+    # one state whose hook re-posts the signal it handles N times: a circuit of N+1 steps in
+    # which the queue never holds more than a few events
+    n = rng.choice([120, 520, 700, 1100])
+    spec = {'signals': ['SA', 'SB'], 'states': [
+      {'name': 'q1', 'parent': None, 'init': None, 'entry_clause': True, 'exit_clause': True, 'init_clause': True, 'fx': {},
+       'react': {'SA': {'kind': 'hook', 'fx': [{'op': rng.choice(['post_fifo', 'post_lifo']), 'sig': 'SA', 'id': 1, 'max': n}]},
+                 'SB': {'kind': 'hook', 'fx': []}}}]}
+    return {'spec': spec, 'host': 'queued', 'build': rng.choice(['closure', 'closure-spied']), 'start': 'q1',
+            'ops': [['post_fifo', 'SB'], ['post_fifo', 'SA'], ['post_fifo', 'SB'], ['circuit'], ['rtc']],
+            'instrumented': rng.random() < 0.5, 'live_spy': False, 'live_trace': False,
+            'sched': {'gran': 'line', 'policy': 'sticky', 's': 1.0}}
   kw = {'fx_rate': rng.choice([0.0, 0.2, 0.4]), 'fx_ops': ('post_fifo', 'post_lifo'), 'nstates': rng.randrange(2, 9)}
   return cc.gen_chart_scenario(rng, combos=[('queued', 'closure'), ('queued', 'closure-spied'), ('queued', 'template')],
                                spec_kw=kw, ops=('post_fifo', 'post_lifo', 'rtc', 'circuit', 'ev'), weights=(4, 3, 5, 1, 1),
